@@ -879,6 +879,8 @@ def check(ctx, rep):
     _sh.share(ctx, rep, _c33, ('colour.within-mode-range',), 'a drawing colour outside the byte range ends in ValueError when the pixel is written')
     from . import c34 as _c34
     _sh.share(ctx, rep, _c34, ('access.mapper-interface-complete', 'access.video-part-length-not-negative'), 'an operation missing from the mapper of the current mode, or a negative block length, ends in a host exception')
+    from . import c23 as _c23
+    _sh.share(ctx, rep, _c23, ('commons.function-pointers-are-not-strings',), 'CHAIN ...,ALL reads as string pointers only scalars that are strings: the code address kept for DEF FNA$ would be dereferenced into ValueError')
     check_e9(ctx, rep)
     check_e10(ctx, rep)
     check_e11(ctx, rep)
@@ -903,6 +905,9 @@ def variants(ctx):
         return lambda tree: f(mu.find_def(tree, f_name))
 
     return [
+        Va('chain-all-dereferences-function-pointer', 'break', 'pcbasic/basic/memory/memory.py',
+           in_fn('DataSegment.preserve_commons', lambda fn: mu.replace_expr(fn, mu.text_is("name[-1:] == values.STR and name[:1] < b'\\x80'"), 'name[-1:] == values.STR')),
+           expect='shared.commons.function-pointers'),
         Va('statement-without-callback', 'break', STMT,
            in_fn('Parser.init_statements', lambda fn: mu.del_dict_key(mu.find_assign_value(fn, 'self._callbacks'), 'tk.LCOPY')), expect='E1'),
         Va('function-selector-without-callback', 'break', EXPR,
